@@ -608,11 +608,52 @@ def report_merge_failures(chk, mcases, mfail, env):
         chk.violation(sig, {'kind': 'apply', 'base': mcases[i]['base'], 'decisions': [d]},
                       {'python': py.get('err', '<merged notebook>'), 'ts': ts.get('err', '<different document>'),
                        'ts_msg': ts.get('msg'), 'found_in': mcases[i]['src'], 'decision_index': j})
-    for i in mfail:
-        if i in explained: continue
+    # no single decision disagrees: look for the smallest PAIR of decisions (in the order sent) that does
+    rest = [i for i in mfail if i not in explained]
+    pr = []
+    for i in rest[:25]:
+        ds = mcases[i]['decisions']
+        for a, b_ in list(itertools.combinations(range(len(ds)), 2))[:45]:
+            pr.append((i, a, b_))
+    pt = [{'op': 'apply', 'base': mcases[i]['base'], 'decisions': [mcases[i]['decisions'][a], mcases[i]['decisions'][b_]]} for i, a, b_ in pr]
+    ppy = core.run_impl(pt, shards=14, script='c15_pyrun.py', env_extra=env) if pt else []
+    pts = c15_node.run_node(pt) if pt else []
+    best = {}
+    for (i, a, b_), t_, py, ts in zip(pr, pt, ppy, pts):
+        if same(py, ts) or ('err' in py and 'err' in ts) or 'ok' not in py: continue
+        size = len(canon(t_['decisions']))
+        if i not in best or size < best[i][0]: best[i] = (size, a, b_, t_, py, ts)
+    for i in rest:
         c = mcases[i]
+        if i in best:
+            _, a, b_, t_, py, ts = best[i]
+            det = {'python': '<merged notebook>', 'ts': ts.get('err', '<different document>'), 'ts_msg': ts.get('msg'),
+                   'found_in': c['src'], 'decision_indices': [a, b_], 'decisions_in_case': len(c['decisions']),
+                   'common_paths': [d.get('common_path') for d in t_['decisions']]}
+            tgt = differing_strings(py.get('ok'), ts.get('ok'))
+            if tgt: det['first_differing_string'] = tgt
+            chk.violation('ts-apply-differs:only-in-combination', {'kind': 'apply', 'base': c['base'], 'decisions': t_['decisions']}, det)
+            continue
         chk.violation('ts-apply-differs:only-in-combination', {'kind': 'apply', 'base': c['base'], 'decisions': c['decisions']},
-                      {'python': c['py'].get('err', '<merged notebook>'), 'ts': c['ts'].get('err', '<different document>'), 'ts_msg': c['ts'].get('msg')})
+                      {'python': c['py'].get('err', '<merged notebook>'), 'ts': c['ts'].get('err', '<different document>'), 'ts_msg': c['ts'].get('msg'),
+                       'found_in': c['src']})
+
+def differing_strings(a, b, path=()):
+    """path and the two values of the first string-level difference of two JSON documents (reporting aid only)"""
+    if isinstance(a, dict) and isinstance(b, dict):
+        for k in sorted(set(a) | set(b)):
+            if k not in a or k not in b: return {'path': list(path + (k,)), 'python': a.get(k), 'ts': b.get(k)}
+            d = differing_strings(a[k], b[k], path + (k,))
+            if d: return d
+        return None
+    if isinstance(a, list) and isinstance(b, list):
+        for i in range(max(len(a), len(b))):
+            if i >= len(a) or i >= len(b): return {'path': list(path + (i,)), 'python': a[i] if i < len(a) else None, 'ts': b[i] if i < len(b) else None}
+            d = differing_strings(a[i], b[i], path + (i,))
+            if d: return d
+        return None
+    if canon(a) != canon(b): return {'path': list(path), 'python': a, 'ts': b}
+    return None
 
 WITNESS_ASTRAL = {'base': chr(0x1f600) + 'ab\n', 'diff': [{'op': 'patch', 'key': 0, 'diff': [{'op': 'addrange', 'key': 2, 'valuelist': 'X'}]}]}
 WITNESS_PATCH = {'base': 'a\x0cb\nc\n', 'diff': [{'op': 'patch', 'key': 1, 'diff': [{'op': 'addrange', 'key': 1, 'valuelist': 'X'}]}]}
